@@ -40,7 +40,7 @@ def populate(shape, variant=0):
             n["attrs"] = [["k", f"v{i}"]]
             n["tail"] = f"t{i}"
     if variant in (0, 2):
-        g["ns"] = [["p", "urn:u1"], ["q", "urn:u2"]]
+        g["ns"] = [["p", "urn:u1"], ["q", "urn:u2"]] + ([[None, "urn:default"]] if variant == 0 else [])
     return g
 
 
@@ -191,6 +191,8 @@ def check_shape(g, acc):
     # a distinct tree whose nodes carry the SAME ids (the tree saved to JSON and loaded again)
     from metapype.model import metapype_io
     try:
+        if any(pf is None for _, n_ in gtree.walk(g) for pf, _u in n_["ns"]):
+            raise StopIteration      # (a default namespace does not survive JSON - finding F24, C06's subject; no same-id twin here)
         J = metapype_io.from_json(metapype_io.to_json(A))
         n_pairs += 1
         r1, r2 = eq(A, J), eq(J, A)
@@ -203,6 +205,8 @@ def check_shape(g, acc):
             if r1 is not False or r2 is not False:
                 acc.add_problem(problem("difference_not_detected", dict(case0, difference="json-reload then content edit"),
                                         expected=False, observed=[r1, r2], difference_="content"))
+    except StopIteration:
+        pass
     except Exception as e:  # noqa
         acc.add_problem(problem("twin_not_equal", dict(case0, difference="json-reload (same ids)"), expected=True, observed=repr(e)))
     # ... also for trees in which a child lacks a prefix of its parent (remove_namespace on a subtree, set_nsmap on one
